@@ -35,6 +35,8 @@ package cluster
 
 //@ func RendezvousHash
 //@   property C13 C14 C17
+//@   pure
+//@   allocates
 //@   requires topK >= 0
 //@   ensures len(result) == min(topK, len(servers))
 //@   ensures forall(j, 0, len(result), exists(i, 0, len(servers), result[j] == servers[i]))
@@ -288,4 +290,56 @@ package cluster
 //@   ensures result1 == nil && len(col.ShardIds) > 1 && len(sr.Sort) == 0 ==> ncalls(SortFunc) == 1 && ncalls(SortSearchResults) == 0
 //@   ensures result1 == nil && len(col.ShardIds) > 1 && len(sr.Sort) != 0 ==> ncalls(SortSearchResults) == 1 && ncalls(SortFunc) == 0 && callarg(SortSearchResults, 1, 1) == sr.Sort
 //@   ensures result1 == nil && len(col.ShardIds) <= 1 ==> ncalls(SortFunc) == 0 && ncalls(SortSearchResults) == 0
+//@   loop 1 invariant rangeindex >= -1
+
+// ---- update / delete fan-out (property C17) ----
+// The per-shard goroutine: a shard whose RPC fails contributes nothing and is not counted as
+// having answered; a shard that answers contributes exactly the ids it reports and is counted
+// once.
+// the RPC itself (routing, transport, remote shard) is not under contract here: it fills the
+// reply and touches nothing else the callers are specified over (trusted)
+//@ func (*ClusterNode).RPCUpdatePoints
+//@   trusted
+//@   pure
+//@   writesarg 2
+//@ func (*ClusterNode).RPCDeletePoints
+//@   trusted
+//@   pure
+//@   writesarg 2
+//@ func (*ClusterNode).UpdatePoints$1
+//@   property C17
+//@   safety -overflow -nil -index
+//@   allocates
+//@   modifies results, successCount, contents(results)
+//@   ensures callres(RPCUpdatePoints, 1, 0) != nil ==> successCount == old(successCount) && results == old(results)
+//@   ensures callres(RPCUpdatePoints, 1, 0) == nil ==> successCount == old(successCount) + 1 && len(results) == old(len(results)) + len(updateResp.UpdatedIds)
+//@   before RPCUpdatePoints requires arg1.ShardId == sId && arg1.Points == points && arg1.Collection.Id == col.Id && arg1.Collection.UserId == col.UserId
+
+//@ func (*ClusterNode).DeletePoints$1
+//@   property C17
+//@   safety -overflow -nil -index
+//@   allocates
+//@   modifies deletedIds, successCount, contents(deletedIds)
+//@   ensures callres(RPCDeletePoints, 1, 0) != nil ==> successCount == old(successCount) && deletedIds == old(deletedIds)
+//@   ensures callres(RPCDeletePoints, 1, 0) == nil ==> successCount == old(successCount) + 1 && len(deletedIds) == old(len(deletedIds)) + len(deleteResp.DeletedIds)
+//@   before RPCDeletePoints requires arg1.ShardId == sId && arg1.Ids == pointIds && arg1.Collection.Id == col.Id && arg1.Collection.UserId == col.UserId
+
+// The caller reports as failed what curateFailedPoints computes from all requested ids, the ids
+// the shards reported, and "complete" exactly when every shard of the collection answered.
+// Assumed (listed): the shards report at most the requested ids (ids are unique per collection).
+//@ func (*ClusterNode).UpdatePoints
+//@   property C17
+//@   safety -overflow -nil
+//@   after Wait assume len(results) <= len(points)
+//@   before curateFailedPoints requires len(arg0) == len(points) && forall(j, 0, len(points), arg0[j] == points[j].Id) && arg1 == results && arg2 == (successCount == len(col.ShardIds))
+//@   ensures err == nil && ncalls(curateFailedPoints) == 1 && result0 == callres(curateFailedPoints, 1, 0)
+//@   loop 1 invariant rangeindex >= -1
+//@   loop 2 invariant rangeindex >= -1 && rangeindex < len(points) && len(allIds) == len(points) && forall(j, 0, rangeindex+1, allIds[j] == points[j].Id)
+
+//@ func (*ClusterNode).DeletePoints
+//@   property C17
+//@   safety -overflow -nil
+//@   after Wait assume len(deletedIds) <= len(pointIds)
+//@   before curateFailedPoints requires arg0 == pointIds && arg1 == deletedIds && arg2 == (successCount == len(col.ShardIds))
+//@   ensures err == nil && ncalls(curateFailedPoints) == 1 && result0 == callres(curateFailedPoints, 1, 0)
 //@   loop 1 invariant rangeindex >= -1
